@@ -445,6 +445,7 @@ def run(cx, out):
     out.rule('R04.1', 'writer and length tables: mode intervals, per-mode value structure and lengths, identical across widths')
     out.rule('R04.2', 'reader acceptance = writer emission: canonical lower bounds, width upper bounds, byte-count range, no-leading-zero thresholds (abstract execution at boundary values / every first byte)')
     out.rule('R04.4', 'fixed buffers and MaxEncodedLen constants >= table maxima')
+    out.rule('R03.3', 'panic-site census over the MIR of the compact module (rule of C03)')
     out.rule('R04.5', 'PrefixInput: prefix first exactly once, then forward; empty reads are no-ops')
     from .. import decshape
     for cfg in lib_cfgs(cx):
@@ -456,3 +457,8 @@ def run(cx, out):
         check_decoders(out, facts, None)
         check_prefix_input(out, facts)
         check_mel_constants(out, facts, caps)
+        # no arithmetic / shift / bounds panic is reachable in the compact decoders and PrefixInput (C03 R03.3, restricted
+        # to the compact module): the abstract execution of R04.2 follows the values that are used, this covers the rest
+        from . import panics
+        from .. import facts as _fm
+        panics.check_panics(out, facts, _fm.repo_root(), only_fns=lambda f: f['path'].startswith('compact::') or '<compact::' in f['path'] or ' compact::' in f['path'])
